@@ -209,7 +209,11 @@ impl MainState {
             },
             Some(_) = conn_state.ping_receiver.recv() => {
                 self.feed_msg(&mut conn_state.stream, "PING :LALAL").await?;
-                conn_state.run_pong_timeout(&self.config);
+                // do not replace pending pong timeout - otherwise silent client will be
+                // never disconnected if pong_timeout >= ping_timeout.
+                if conn_state.pong_notifier.is_none() {
+                    conn_state.run_pong_timeout(&self.config);
+                }
                 Ok(())
             }
             Some(_) = conn_state.timeout_receiver.recv() => {
